@@ -99,6 +99,10 @@ def store_expr(expr, params, local_norm):
             return f'.param {lean_str(expr.id)} {("(.other " + lean_str(n) + ")" if n else ".id")}'
     if isinstance(expr, ast.IfExp):
         t = is_none_test(expr.test, None)
+        if t and t[0] == "none":
+            # `X if p is None else p` is `p if p is not None else X`
+            expr = ast.IfExp(test=ast.Compare(left=expr.test.left, ops=[ast.IsNot()], comparators=expr.test.comparators), body=expr.orelse, orelse=expr.body)
+            t = ("notnone", t[1])
         if t and t[0] == "notnone" and isinstance(expr.body, ast.Name) and expr.body.id == t[1] and t[1] in params:
             if isinstance(expr.orelse, ast.Name) and expr.orelse.id in params:
                 return f".ifNoneParam {lean_str(t[1])} {lean_str(expr.orelse.id)}"
@@ -194,7 +198,9 @@ def describe_raw(path, cname):
                         tg = s2.targets[0] if isinstance(s2, ast.Assign) else s2.target
                         a = attr_of(tg, {"self"}) or (attr_of(tg.value, {"self"}) if isinstance(tg, ast.Subscript) else None)
                         if a is not None:
-                            stores.append((a, f".other {lean_str('assigned inside: if ' + src(st.test))}"))
+                            ent = (a, f".other {lean_str('assigned inside: if ' + src(st.test))}")
+                            if ent not in stores:       # how many statements the branches use is not part of the description
+                                stores.append(ent)
                     continue
         visit(init.body)
         # post-process `ifNoneNew:` local normalisations into the store form
